@@ -256,12 +256,17 @@ def checkMeas {β : Type} (m : MeasEnc β) (n : Nat) : Except ErrKind Unit :=
     | .error e => .error e
     | .ok vals => if vals.length ≠ n then .error .value else .ok ()
 
+/-- `name is None or item.name == name` -/
+def nameMatches {κ : Type} (same : κ → κ → Bool) (name : Option κ) (k : κ) : Bool :=
+  match name with
+  | none => true
+  | some q => same k q
+
 /-- `get_measurements(name)`: the value vectors (columns of the returned matrix) of the items whose
 name matches, in order; `κ` stands for coded names, `same` for their equality (C17) -/
 def getMeasurements {β κ : Type} (same : κ → κ → Bool) (items : List (κ × MeasEnc β)) (n : Nat) (name : Option κ) :
     Except ErrKind (List (List (Option β))) :=
-  mapE (fun (it : κ × MeasEnc β) => getValues it.2 n)
-    (items.filter (fun it => match name with | none => true | some q => same it.1 q))
+  mapE (fun (it : κ × MeasEnc β) => getValues it.2 n) (items.filter (fun it => nameMatches same name it.1))
 
 /-! ### group lookup -/
 
